@@ -258,7 +258,7 @@ Proof.
   - intros; apply upd_other; auto.
   - intros; apply upd_other; auto.
   - unfold conn_ok, cleanc, flight; cbn. rewrite !upd_same. cbn.
-    split; [lia|]. split; [unfold owed; cbn; lia|]. split; [reflexivity|]. split.
+    split; [lia|]. split; [destruct ab; unfold owed; cbn; lia|]. split; [destruct ab; reflexivity|]. split.
     + intros _. right. exists (w_exch (works s w)), w. rewrite upd_same. cbn. intuition.
     + discriminate.
   - wok.
